@@ -359,21 +359,27 @@ pub open spec fn ref8_at(r: Seq<u8>, o: int) -> Dimensions {
     Dimensions { start: (u16_at(r, o) as u32, u16_at(r, o + 4) as u32), end: (u16_at(r, o + 2) as u32, u16_at(r, o + 6) as u32) }
 }
 pub open spec fn merge_cmcs(r: Seq<u8>) -> int { u16_at(r, 0) }
-/// a record body holds its declared regions; [MS-XLS] 2.1.4: a record body is at most 65535 bytes (16-bit size field; cmcs <= 1026 by 2.4.168)
-pub open spec fn merge_wf(r: Seq<u8>) -> bool { r.len() >= 2 && r.len() >= 2 + 8 * merge_cmcs(r) && r.len() <= 65535 }
+/// the record body holds the cmcs field and the cmcs Ref8 structures it declares
+pub open spec fn merge_wf(r: Seq<u8>) -> bool { r.len() >= 2 && r.len() >= 2 + 8 * merge_cmcs(r) }
 pub open spec fn merge_regions(r: Seq<u8>) -> Seq<Dimensions> { Seq::new(merge_cmcs(r) as nat, |k: int| ref8_at(r, 2 + 8 * k)) }
 
 //@@ fn src/xls.rs parse_merge_cells props=C17 entry ret=res
 //@@ sig
     ensures
-        //# C17.merge_ok
-        merge_wf(r@) ==> res is Ok,
+        //# C17.merge_len_guard
+        res is Err <==> !merge_wf(r@),
+        //# C17.merge_len_err
+        r@.len() < 2 ==> is_len_err(res, 2, r@.len() as int),
+        //# C17.merge_len_err_regions
+        r@.len() >= 2 && !merge_wf(r@) ==> is_len_err(res, 2 + 8 * merge_cmcs(r@), r@.len() as int),
+        //# C17.merge_err_frame
+        res is Err ==> final(merge_cells)@ == old(merge_cells)@,
         //# C17.merge_count
-        merge_wf(r@) ==> final(merge_cells)@.len() == old(merge_cells)@.len() + merge_cmcs(r@),
+        res is Ok ==> final(merge_cells)@.len() == old(merge_cells)@.len() + merge_cmcs(r@),
         //# C17.merge_frame
-        merge_wf(r@) ==> final(merge_cells)@.subrange(0, old(merge_cells)@.len() as int) == old(merge_cells)@,
+        res is Ok ==> final(merge_cells)@.subrange(0, old(merge_cells)@.len() as int) == old(merge_cells)@,
         //# C17.merge_regions
-        merge_wf(r@) ==> forall|k: int| 0 <= k < merge_cmcs(r@) ==> #[trigger] final(merge_cells)@[old(merge_cells)@.len() + k] == ref8_at(r@, 2 + 8 * k),
+        res is Ok ==> final(merge_cells)@ == old(merge_cells)@ + merge_regions(r@),
 //@@ body
     let ghost m0 = merge_cells@;
     proof { lemma_le_at(r@, 0); assert(r@.subrange(0, r@.len() as int) =~= r@); }
@@ -381,13 +387,15 @@ pub open spec fn merge_regions(r: Seq<u8>) -> Seq<Dimensions> { Seq::new(merge_c
         invariant
             it.seq().len() == count,
             forall|k: int| 0 <= k < count ==> it.seq()[k] == k,
-            r@.len() >= 2 ==> count == merge_cmcs(r@),
+            count == merge_cmcs(r@), merge_wf(r@),
             //# C17.merge_regions
-            merge_wf(r@) ==> merge_cells@ =~= m0 + Seq::new(it.index@ as nat, |k: int| ref8_at(r@, 2 + 8 * k)),
+            merge_cells@ =~= m0 + Seq::new(it.index@ as nat, |k: int| ref8_at(r@, 2 + 8 * k)),
 //@@ before /let rf = /
         proof {
             lemma_le_at(r@, offset as int); lemma_le_at(r@, offset + 2); lemma_le_at(r@, offset + 4); lemma_le_at(r@, offset + 6);
         }
+//@@ before /Ok\(\(\)\)/
+    proof { assert(merge_cells@ =~= m0 + merge_regions(r@)); }
 //@@ end
 
 // =====================================================================================================
@@ -421,9 +429,9 @@ pub open spec fn mulrk_row(r: Seq<u8>) -> int { u16_at(r, 0) }
 pub open spec fn mulrk_col_first(r: Seq<u8>) -> int { u16_at(r, 2) }
 pub open spec fn mulrk_col_last(r: Seq<u8>) -> int { u16_at(r, r.len() - 2) }
 pub open spec fn mulrk_n(r: Seq<u8>) -> int { mulrk_col_last(r) - mulrk_col_first(r) + 1 }
-/// well-formed: the column span matches the number of RkRec present ([MS-XLS] 2.1.4: a record body is at most 65535 bytes)
+/// well-formed: colFirst <= colLast and the column span matches the number of RkRec present
 pub open spec fn mulrk_wf(r: Seq<u8>) -> bool {
-    r.len() >= 6 && mulrk_col_first(r) <= mulrk_col_last(r) && r.len() == 6 + 6 * mulrk_n(r) && r.len() <= 65535
+    r.len() >= 6 && mulrk_col_first(r) <= mulrk_col_last(r) && r.len() == 6 + 6 * mulrk_n(r)
 }
 /// the k-th cell of the run: position (rw, colFirst + k), value = RkRec k (at 4 + 6k: ixfe, then the RK number)
 pub open spec fn mulrk_cell_ok(r: Seq<u8>, formats: Seq<CellFormat>, is_1904: bool, k: int, c: Cell<Data>) -> bool {
@@ -439,10 +447,13 @@ pub open spec fn mulrk_cell_ok(r: Seq<u8>, formats: Seq<CellFormat>, is_1904: bo
         r@.len() < 6 ==> is_len_err(res, 6, r@.len() as int),
         //# C02.mulrk_err_frame
         res is Err ==> final(cells)@ == old(cells)@,
+        //# C02.mulrk_err_iff_malformed
+        res is Err <==> !mulrk_wf(r@),
+        //# C02.mulrk_reversed_span_rejected
+        r@.len() >= 6 && mulrk_col_last(r@) < mulrk_col_first(r@) ==> is_len_err(res, 12, r@.len() as int),
         //# C02.mulrk_span_mismatch_rejected
-        6 <= r@.len() <= 65535 && mulrk_col_first(r@) <= mulrk_col_last(r@) && r@.len() != 6 + 6 * mulrk_n(r@) ==> res is Err,
-        //# C02.mulrk_ok
-        mulrk_wf(r@) ==> res is Ok,
+        r@.len() >= 6 && mulrk_col_first(r@) <= mulrk_col_last(r@) && r@.len() != 6 + 6 * mulrk_n(r@) ==>
+            is_len_err(res, 6 + 6 * mulrk_n(r@), r@.len() as int),
         //# C02.mulrk_count
         mulrk_wf(r@) ==> final(cells)@.len() == old(cells)@.len() + mulrk_n(r@),
         //# C02.mulrk_frame
@@ -459,7 +470,7 @@ pub open spec fn mulrk_cell_ok(r: Seq<u8>, formats: Seq<CellFormat>, is_1904: bo
             r@.len() >= 6,
             chunks_size(__it0) == 6,
             row == mulrk_row(r@), col_first == mulrk_col_first(r@), col_last == mulrk_col_last(r@),
-            col_first <= col_last, r@.len() == 6 + 6 * mulrk_n(r@), mulrk_n(r@) <= 65535,
+            col_first <= col_last, r@.len() == 6 + 6 * mulrk_n(r@), mulrk_n(r@) <= 65536,
             0 <= k <= mulrk_n(r@),
             col == col_first + k,
             chunks_rem(__it0) =~= r@.subrange(4 + 6 * k, r@.len() - 2),
@@ -735,8 +746,10 @@ spec fn bof_biff(d: Seq<u8>) -> Biff {
 //@@ fn src/xls.rs parse_bof props=C16 entry ret=res
 //@@ sig
     ensures
-        //# C16.bof_never_err
-        old(r).data@.len() >= 2 ==> res is Ok,
+        //# C16.bof_len_guard
+        old(r).data@.len() < 2 <==> res is Err,
+        //# C16.bof_len_err
+        old(r).data@.len() < 2 ==> is_len_err(res, 2, old(r).data@.len() as int),
         //# C16.bof_version
         old(r).data@.len() >= 2 ==> res is Ok && res->Ok_0.biff == bof_biff(old(r).data@),
         //# C16.bof_record_frame
@@ -811,21 +824,15 @@ pub open spec fn not_nul(c: char) -> bool { c != '\0' }
         res is Ok ==> kind_of(bs8_dt(old(r).data@)) == Some(res->Ok_0.1.typ),
         //# C16.sheet_name
         res is Ok ==> res->Ok_0.1.name@ == short_string_chars(old(r).data@.skip(6), *encoding, biff).filter(|c: char| not_nul(c)),
+        //# C16.sheet_len_guard
+        old(r).data@.len() < 6 ==> is_len_err(res, 6, old(r).data@.len() as int),
         //# C16.sheet_undefined_state_or_kind_rejected
         old(r).data@.len() >= 6 && (vis_of(bs8_hs_state(old(r).data@)) is None || kind_of(bs8_dt(old(r).data@)) is None) ==> res is Err,
         //# C16.sheet_hsstate_unused_bits_ignored
-        old(r).data@.len() >= 8 && vis_of(bs8_hs_state(old(r).data@)) is Some && kind_of(bs8_dt(old(r).data@)) is Some ==> res is Ok,
+        res is Ok <==> old(r).data@.len() >= 8 && vis_of(bs8_hs_state(old(r).data@)) is Some && kind_of(bs8_dt(old(r).data@)) is Some,
 //@@ body
     let ghost d0 = r.data@;
     proof { if d0.len() >= 4 { lemma_le_at(d0, 0); assert(d0.subrange(0, d0.len() as int) =~= d0); } }
-//@@ before /let visible = /
-    proof {
-        let b = d0[4];
-        assert(b & 0x3f == 0 ==> b & 0x03 == 0) by (bit_vector);
-        assert(b & 0x3f == 1 ==> b & 0x03 == 1) by (bit_vector);
-        assert(b & 0x3f == 2 ==> b & 0x03 == 2) by (bit_vector);
-        assert(b & 0x03 == 3 ==> b & 0x3f != 0 && b & 0x3f != 1 && b & 0x3f != 2) by (bit_vector);
-    }
 //@@ before /name\.retain/
     let ghost name0 = name@;
 //@@ replace /name\.retain\(\|c\|([^;]*)\);/ closure annotated with its own (Verus-checked) ensures so that the retain contract can see which chars are kept; the predicate text is re-inserted verbatim
